@@ -54,6 +54,10 @@ struct DayFacts {
     utc: [i64; 4],
     local: [u32; 4],
     offs: [i64; 4],
+    /// the zone's UTC offset (seconds) at each event instant, from chrono-tz directly
+    zoff: [i64; 4],
+    /// the minute of the day each event instant shows on the zone's clock, from chrono-tz directly
+    wall: [u32; 4],
     noon: (NaiveDate, u32, RuleKind),
     midnight: (NaiveDate, u32, RuleKind),
 }
@@ -64,13 +68,18 @@ fn day_facts(coords: Coordinates, loc: &TzLocation<chrono_tz::Tz>, oh: &OpeningH
     let local = tod(loc, date);
     let tz = *loc.get_timezone();
     let offs = inst.map(|t| (t.with_timezone(&tz).naive_local().date() - date).num_days());
+    let zoff = inst.map(|t| i64::from(chrono::Offset::fix(&chrono::TimeZone::offset_from_utc_datetime(&tz, &t.naive_utc())).local_minus_utc()));
+    let wall = inst.map(|t| {
+        let n = t.with_timezone(&tz).naive_local().time();
+        n.hour() * 60 + n.minute()
+    });
     let noon_ts = (utc[1] + utc[2]).div_euclid(2);
     let at = |ts: i64| {
         let dt = Utc.timestamp_opt(ts, 0).unwrap().with_timezone(&tz);
         let n = dt.naive_local();
         (n.date(), n.time().hour() * 60 + n.time().minute(), oh.state(dt))
     };
-    DayFacts { utc, local, offs, noon: at(noon_ts), midnight: at(noon_ts + 12 * 3600) }
+    DayFacts { utc, local, offs, zoff, wall, noon: at(noon_ts), midnight: at(noon_ts + 12 * 3600) }
 }
 
 fn ordered<T: PartialOrd>(x: &[T; 4]) -> bool {
@@ -172,11 +181,13 @@ pub fn exec(op: &str, a: &[&str]) -> Option<String> {
                     format!("{} {} {} {} {}", ast::day_num(x.0), x.1, join(&prev), join(&tod(&loc, x.0)), ast::kind_tok(x.2))
                 };
                 format!(
-                    "{} U {} L {} O {} N {} M {}",
+                    "{} U {} L {} O {} Z {} C {} N {} M {}",
                     loc.get_timezone().name(),
                     join(&f.utc),
                     join(&f.local),
                     join(&f.offs),
+                    join(&f.zoff),
+                    join(&f.wall),
                     side(&f.noon),
                     side(&f.midnight)
                 )
@@ -235,21 +246,18 @@ struct ScanStats {
     noon_not_open_cc: u64,
     midnight_not_closed: u64,
     midnight_not_closed_cc: u64,
+    /// days on which some local event time is not the minute its instant shows on the zone's clock
+    local_not_wall: u64,
     panics: u64,
     wit: [Option<i64>; 5],
     /// min / max of sunrise−dawn, sunset−sunrise, dusk−sunset in minutes, over days with ordered instants
     gaps: [(i64, i64); 3],
 }
 
-/// the clock changed between two events of the day: some gap between consecutive local times of day
-/// differs (mod 24 h, ±1 min of rounding) from the gap between the instants
+/// the clock changed between two events of the day: the zone's UTC offset (read from the zone data,
+/// not from what the library answered) is not the same at the four event instants
 fn clock_changed(f: &DayFacts) -> bool {
-    (0..3).any(|k| {
-        let gl = (f.local[k + 1] as i64 - f.local[k] as i64).rem_euclid(1440);
-        let gu = ((f.utc[k + 1] - f.utc[k]).div_euclid(60)).rem_euclid(1440);
-        let d = (gl - gu).rem_euclid(1440);
-        d > 1 && d < 1439
-    })
+    f.zoff.iter().any(|o| *o != f.zoff[0])
 }
 
 fn scan_chunk(coords: Coordinates, days: &[i64]) -> ScanStats {
@@ -297,6 +305,9 @@ fn scan_chunk(coords: Coordinates, days: &[i64]) -> ScanStats {
                 s.local_other += 1;
             }
         }
+        if f.local != f.wall {
+            s.local_not_wall += 1;
+        }
         if f.noon.2 != RuleKind::Open {
             hit(2);
             s.noon_not_open += 1;
@@ -332,6 +343,7 @@ fn scan(coords: Coordinates, first: i64, stride: i64, last: i64) -> String {
         t.midnight_not_closed += p.midnight_not_closed;
         t.midnight_not_closed_cc += p.midnight_not_closed_cc;
         t.panics += p.panics;
+        t.local_not_wall += p.local_not_wall;
         for i in 0..5 {
             if t.wit[i].is_none() {
                 t.wit[i] = p.wit[i];
@@ -347,7 +359,7 @@ fn scan(coords: Coordinates, first: i64, stride: i64, last: i64) -> String {
     let w = |x: Option<i64>| x.map(|d| d.to_string()).unwrap_or_else(|| "-".into());
     let g = |x: (i64, i64)| if x.0 <= x.1 { format!("{} {}", x.0, x.1) } else { "- -".into() };
     format!(
-        "{zone} {} I {} {} L {} {} {} N {} {} M {} {} P {} W {} {} {} {} {} R {} {} {}",
+        "{zone} {} I {} {} L {} {} {} N {} {} M {} {} P {} X {} W {} {} {} {} {} R {} {} {}",
         t.days,
         t.inst_unordered,
         t.inst_epoch,
@@ -359,6 +371,7 @@ fn scan(coords: Coordinates, first: i64, stride: i64, last: i64) -> String {
         t.midnight_not_closed,
         t.midnight_not_closed_cc,
         t.panics,
+        t.local_not_wall,
         w(t.wit[0]),
         w(t.wit[1]),
         w(t.wit[2]),
